@@ -100,7 +100,7 @@ def spec(s3, pairs):
             return None, True
         if c is None:
             continue
-        lo, hi = (ri, rj) if R[ri] < R[rj] else (rj, ri)
+        lo, hi = (ri, rj) if T.res_lt(R[ri], R[rj]) else (rj, ri)
         for ea in a:
             for eb in b:
                 key = (lo, hi, c + (ea + eb if lo == ri else eb + ea))
